@@ -304,3 +304,203 @@ func gzipClosedBeforeRead(p *core.Program, r *core.Report, rule string, relPkgs 
 		r.Check(bad == "", rule, c, pos, "the compressor is closed before its buffer is read", "the compressed bytes are read at "+bad+" before the compressor's Close() has run (a deferred Close runs after the read): the stream lacks its final block and trailer and cannot be decompressed")
 	}
 }
+
+// payloadNotTruncated: a stream writer does not cut its payload down before writing it. In the
+// writer methods of the given packages no slice- or string-typed parameter is re-assigned to a
+// sub-slice of itself with an upper bound other than its own length (b = b[:N]); such a writer
+// silently emits less than it was handed, which no length prefix can make up for. One obligation per
+// writer with a payload parameter.
+func payloadNotTruncated(p *core.Program, r *core.Report, rule string, relPkg, recvType string) {
+	t := namedIn(p, relPkg, recvType)
+	if t == nil {
+		r.Undec(rule, relPkg+"."+recvType+" payload", "-", "type not found")
+		return
+	}
+	for _, fi := range p.MethodsOf(t) {
+		if fi.Decl.Body == nil || !strings.HasPrefix(fi.Obj.Name(), "Write") {
+			continue
+		}
+		info := fi.Pkg.TypesInfo
+		params := map[types.Object]bool{}
+		for _, f := range fi.Decl.Type.Params.List {
+			for _, n := range f.Names {
+				o := info.Defs[n]
+				if o == nil {
+					continue
+				}
+				switch u := o.Type().Underlying().(type) {
+				case *types.Slice:
+					params[o] = true
+				case *types.Basic:
+					if u.Info()&types.IsString != 0 {
+						params[o] = true
+					}
+				}
+			}
+		}
+		if len(params) == 0 {
+			continue
+		}
+		var probs []string
+		ast.Inspect(fi.Decl.Body, func(n ast.Node) bool {
+			as, ok := n.(*ast.AssignStmt)
+			if !ok || len(as.Lhs) != len(as.Rhs) {
+				return true
+			}
+			for i, l := range as.Lhs {
+				id, ok := ast.Unparen(l).(*ast.Ident)
+				if !ok || !params[info.ObjectOf(id)] {
+					continue
+				}
+				se, ok := ast.Unparen(as.Rhs[i]).(*ast.SliceExpr)
+				if !ok {
+					continue
+				}
+				x, ok := ast.Unparen(se.X).(*ast.Ident)
+				if !ok || info.ObjectOf(x) != info.ObjectOf(id) {
+					continue
+				}
+				full := se.High == nil || stripSpaces(types.ExprString(se.High)) == "len("+id.Name+")"
+				if lo, isC := constIntOf(info, se.Low); se.Low != nil && (!isC || lo != 0) {
+					full = false
+				}
+				if !full {
+					probs = append(probs, fmt.Sprintf("the payload parameter %s is cut to %s before it is written", id.Name, stripSpaces(types.ExprString(se))))
+				}
+			}
+			return true
+		})
+		fileProbs(r, rule, core.FuncName(fi.Obj)+" payload", p.Pos(fi.Decl.Pos()), probs, "the payload parameter is written as handed in")
+	}
+}
+
+// rawWidthInvariant: a byte-slice field that a type's Write emits without a length (WriteBytes(f))
+// and its Read restores with a constant length (f = ReadBytes(N)) holds exactly N bytes by
+// convention. Every other assignment to that field in the package stores a value whose length the
+// path has established: a literal of N elements, a ReadBytes(N), or a value x on a path where
+// len(x) == N was found true. Otherwise Write emits more or fewer bytes than Read consumes: the
+// value differs from its own decoded encoding and shifts everything after it.
+func rawWidthInvariant(p *core.Program, r *core.Report, rule, relPkg string) {
+	pk := p.Pkg(relPkg)
+	if pk == nil {
+		return
+	}
+	type fixed struct {
+		f types.Object
+		n int64
+	}
+	var fields []fixed
+	for _, fi := range p.Funcs {
+		if fi.Pkg != pk || fi.Decl.Body == nil || fi.Obj.Name() != "Read" || core.RecvNamed(fi.Obj) == nil {
+			continue
+		}
+		info := fi.Pkg.TypesInfo
+		ast.Inspect(fi.Decl.Body, func(n ast.Node) bool {
+			as, ok := n.(*ast.AssignStmt)
+			if !ok || len(as.Lhs) != 1 || len(as.Rhs) != 1 {
+				return true
+			}
+			sel, ok := ast.Unparen(as.Lhs[0]).(*ast.SelectorExpr)
+			if !ok {
+				return true
+			}
+			call, ok := ast.Unparen(as.Rhs[0]).(*ast.CallExpr)
+			if !ok || len(call.Args) != 1 {
+				return true
+			}
+			if cs, ok := call.Fun.(*ast.SelectorExpr); !ok || cs.Sel.Name != "ReadBytes" {
+				return true
+			}
+			k, isC := constIntOf(info, call.Args[0])
+			f, _ := info.ObjectOf(sel.Sel).(*types.Var)
+			if isC && f != nil && f.IsField() {
+				fields = append(fields, fixed{f, k})
+			}
+			return true
+		})
+	}
+	for _, fx := range fields {
+		for _, fi := range p.Funcs {
+			if fi.Pkg != pk || fi.Decl.Body == nil || fi.Obj.Name() == "Read" {
+				continue
+			}
+			info := fi.Pkg.TypesInfo
+			norm := func(e ast.Expr) string { return stripSpaces(types.ExprString(e)) }
+			stores := 0
+			ps, over := paths.Enumerate(fi.Decl.Body, paths.Config{Info: info,
+				Cond: func(c ast.Expr, v bool) *paths.Event {
+					return &paths.Event{Kind: "COND", Arg: condKey(info, norm, c, v), Pos: c.Pos()}
+				},
+				Classify: func(n ast.Node) []paths.Event {
+					var out []paths.Event
+					as, ok := n.(*ast.AssignStmt)
+					if !ok || len(as.Lhs) != len(as.Rhs) {
+						return nil
+					}
+					for i, l := range as.Lhs {
+						sel, ok := ast.Unparen(l).(*ast.SelectorExpr)
+						if !ok || info.ObjectOf(sel.Sel) != fx.f {
+							continue
+						}
+						stores++
+						rhs := ast.Unparen(as.Rhs[i])
+						arg := "var:" + norm(rhs)
+						switch v := rhs.(type) {
+						case *ast.CompositeLit:
+							arg = fmt.Sprintf("lit:%d", len(v.Elts))
+						case *ast.CallExpr:
+							if cs, ok := v.Fun.(*ast.SelectorExpr); ok && cs.Sel.Name == "ReadBytes" && len(v.Args) == 1 {
+								if k, isC := constIntOf(info, v.Args[0]); isC {
+									arg = fmt.Sprintf("lit:%d", k)
+								}
+							}
+							if id, ok := v.Fun.(*ast.Ident); ok && id.Name == "make" && len(v.Args) >= 2 {
+								if k, isC := constIntOf(info, v.Args[1]); isC {
+									arg = fmt.Sprintf("lit:%d", k)
+								}
+							}
+						}
+						out = append(out, paths.Event{Kind: "STORE", Arg: arg, Pos: as.Pos()})
+					}
+					return out
+				}})
+			if stores == 0 {
+				continue
+			}
+			c := core.FuncName(fi.Obj) + " stores " + fx.f.Name()
+			pos := p.Pos(fi.Decl.Pos())
+			if over {
+				r.Undec(rule, c, pos, "too many paths")
+				continue
+			}
+			var probs []string
+			for _, pa := range ps {
+				if !pa.Consistent() {
+					continue
+				}
+				for i, e := range pa {
+					if e.Kind != "STORE" {
+						continue
+					}
+					if strings.HasPrefix(e.Arg, "lit:") {
+						if e.Arg != fmt.Sprintf("lit:%d", fx.n) {
+							probs = append(probs, fmt.Sprintf("%s bytes are stored where Read restores %d", strings.TrimPrefix(e.Arg, "lit:"), fx.n))
+						}
+						continue
+					}
+					x := strings.TrimPrefix(e.Arg, "var:")
+					ok := false
+					for _, b := range pa[:i] {
+						if b.Kind == "COND" && b.Arg == fmt.Sprintf("len(%s)==%d=true", x, fx.n) {
+							ok = true
+						}
+					}
+					if !ok {
+						probs = append(probs, fmt.Sprintf("`%s` is stored without len(%s) == %d having been established on the path: Write emits its bytes without a length and Read consumes exactly %d", x, x, fx.n, fx.n))
+					}
+				}
+			}
+			fileProbs(r, rule, c, pos, uniq(probs), fmt.Sprintf("only %d-byte values are stored", fx.n))
+		}
+	}
+}
